@@ -581,8 +581,6 @@ package genetics
 //@ ghost gCloneGenome Int
 // The operators applied to babies enter with the effect derived from their bodies (modification analysis): none of them touches an
 // Organism or a Species, which is all this contract needs of them.
-//@ func (*Genome).mutateLinkWeights
-//@   reason effect derived from the body (modification analysis); no functional claim
 //@ func (*Genome).mutateConnectSensors
 //@   reason effect derived from the body (modification analysis); no functional claim
 //@ func (*Genome).mutateAllNonstructural
@@ -652,7 +650,7 @@ package genetics
 //@   props C10 C02
 //@   mode nosafety
 //@   abstracts select
-//@   assume_pre duplicate, mutateAddNode, mutateAddLink, mateMultipoint, mateMultipointAvg, mateSinglePoint, compatibility, Int31n
+//@   assume_pre duplicate, mutateAddNode, mutateAddLink, mutateLinkWeights, mateMultipoint, mateMultipointAvg, mateSinglePoint, compatibility, Int31n
 //@   requires s != nil && pop != nil && len(s.Organisms) > 0 && (forall i :: 0 <= i && i < len(s.Organisms) ==> s.Organisms[i] != nil && s.Organisms[i].Genotype != nil)
 //@   requires [quotaCoversSuperChamp] 0 <= s.Organisms[0].superChampOffspring && s.Organisms[0].superChampOffspring <= s.ExpectedOffspring
 //@   requires neat.ErrNEATOptionsNotFound != nil
@@ -791,3 +789,78 @@ package genetics
 //@     leave [scanned] !linkExists ==> (forall i :: 0 <= i && i < len(g.Genes) ==> !linkIs(g.Genes[i], node1, node2, doRecur))
 //@   loop 6:
 //@     invariant -1 <= #idx
+
+
+// ---- C05: the mutations that may not touch structure ------------------------------------------------------
+// "Weight, trait, toggle-enable and re-enable mutations never change the node set, gene endpoints or innovation numbers": the
+// modifies clauses below ARE that statement (a frame obligation is generated for every other heap family and slice memory).
+//@ func (*Genome).mutateLinkWeights
+//@   props C05
+//@   mode nosafety
+//@   modifies network.Link.ConnectionWeight, Gene.MutationNum
+//@   ensures [record] result1 == nil ==> (forall i :: 0 <= i && i < len(g.Genes) ==> g.Genes[i].MutationNum == g.Genes[i].Link.ConnectionWeight)
+//@   requires g != nil && nonNilGenes(g.Genes) && geneLinksWF(g.Genes)
+//@   requires [ownLinks] forall i, j :: 0 <= i && i < j && j < len(g.Genes) ==> g.Genes[i] != g.Genes[j] && g.Genes[i].Link != g.Genes[j].Link
+//@   loop 1:
+//@     invariant -1 <= #idx && #idx < len(g.Genes)
+//@     invariant [record] forall i :: 0 <= i && i <= #idx ==> g.Genes[i].MutationNum == g.Genes[i].Link.ConnectionWeight
+//@ func (*neat.Trait).Mutate
+//@   props C05
+//@   mode nosafety
+//@   modifies Mem[float64]
+//@   ensures [ownParams] forall b :: b != base(t.Params) ==> Mem[float64][b] == old(Mem[float64][b])
+//@   loop 1:
+//@     invariant forall b :: b != base(t.Params) ==> Mem[float64][b] == old(Mem[float64][b])
+//@ func (*Genome).mutateRandomTrait
+//@   props C05
+//@   mode nosafety
+//@   assume_pre Intn
+//@   modifies Mem[float64]
+//@ func (*Genome).mutateLinkTrait
+//@   props C05
+//@   mode nosafety
+//@   assume_pre Intn
+//@   modifies network.Link.Trait
+//@   loop 1:
+//@     invariant true
+//@ func (*Genome).mutateNodeTrait
+//@   props C05
+//@   mode nosafety
+//@   assume_pre Intn
+//@   modifies network.NNode.Trait
+//@   loop 1:
+//@     invariant true
+// re-enable: only the first disabled gene (lowest position) becomes enabled, nothing else changes.
+//@ func (*Genome).mutateGeneReEnable
+//@   props C05
+//@   mode nosafety
+//@   requires g != nil && nonNilGenes(g.Genes)
+//@   requires [distinctGenes] forall i, j :: 0 <= i && i < j && j < len(g.Genes) ==> g.Genes[i] != g.Genes[j]
+//@   modifies Gene.IsEnabled
+//@   ensures [kept] forall i :: 0 <= i && i < len(g.Genes) && old(g.Genes[i].IsEnabled) ==> g.Genes[i].IsEnabled
+//@   ensures [first] forall i :: 0 <= i && i < len(g.Genes) && !old(g.Genes[i].IsEnabled) && (forall j :: 0 <= j && j < i ==> old(g.Genes[j].IsEnabled)) ==> g.Genes[i].IsEnabled
+//@   ensures [others] forall i, j :: 0 <= j && j < i && i < len(g.Genes) && !old(g.Genes[j].IsEnabled) && !old(g.Genes[i].IsEnabled) ==> !g.Genes[i].IsEnabled
+//@   ensures [onlyThese] forall x *Gene :: wasAllocated(x) && (forall i :: 0 <= i && i < len(g.Genes) ==> g.Genes[i] != x) ==> x.IsEnabled == old(x.IsEnabled)
+//@   loop 1:
+//@     invariant -1 <= #idx && #idx < len(g.Genes)
+//@     invariant [allEnabledSoFar] forall i :: 0 <= i && i <= #idx ==> old(g.Genes[i].IsEnabled)
+//@     invariant [nothingYet] forall x *Gene :: wasAllocated(x) ==> x.IsEnabled == old(x.IsEnabled)
+// toggle-enable: never disables the last enabled gene leaving a node (whether it may enable genes is left open by the property).
+//@ func (*Genome).mutateToggleEnable
+//@   props C05
+//@   mode nosafety
+//@   assume_pre Intn
+//@   requires g != nil && nonNilGenes(g.Genes) && geneLinksWF(g.Genes)
+//@   modifies Gene.IsEnabled
+//@   ensures [stillLeaves] forall i :: 0 <= i && i < len(g.Genes) && old(g.Genes[i].IsEnabled) ==> (exists j :: 0 <= j && j < len(g.Genes) && g.Genes[j].IsEnabled && g.Genes[j].Link.InNode.Id == g.Genes[i].Link.InNode.Id)
+//@   ensures [onlyThese] forall x *Gene :: wasAllocated(x) && (forall i :: 0 <= i && i < len(g.Genes) ==> g.Genes[i] != x) ==> x.IsEnabled == old(x.IsEnabled)
+//@   loop 1:
+//@     invariant 0 <= loop
+//@     invariant [stillLeaves] forall i :: 0 <= i && i < len(g.Genes) && old(g.Genes[i].IsEnabled) ==> (exists j :: 0 <= j && j < len(g.Genes) && g.Genes[j].IsEnabled && g.Genes[j].Link.InNode.Id == g.Genes[i].Link.InNode.Id)
+//@     invariant [onlyThese] forall x *Gene :: wasAllocated(x) && (forall i :: 0 <= i && i < len(g.Genes) ==> g.Genes[i] != x) ==> x.IsEnabled == old(x.IsEnabled)
+//@   loop 2:
+//@     invariant -1 <= #idx && gene.IsEnabled && 0 <= geneNum && geneNum < len(g.Genes) && gene == g.Genes[geneNum]
+//@     invariant [stillLeaves] forall i :: 0 <= i && i < len(g.Genes) && old(g.Genes[i].IsEnabled) ==> (exists j :: 0 <= j && j < len(g.Genes) && g.Genes[j].IsEnabled && g.Genes[j].Link.InNode.Id == g.Genes[i].Link.InNode.Id)
+//@     invariant [onlyThese] forall x *Gene :: wasAllocated(x) && (forall i :: 0 <= i && i < len(g.Genes) ==> g.Genes[i] != x) ==> x.IsEnabled == old(x.IsEnabled)
+//@     leave [stillLeaves] forall i :: 0 <= i && i < len(g.Genes) && old(g.Genes[i].IsEnabled) ==> (exists j :: 0 <= j && j < len(g.Genes) && g.Genes[j].IsEnabled && g.Genes[j].Link.InNode.Id == g.Genes[i].Link.InNode.Id)
+//@     leave [onlyThese] forall x *Gene :: wasAllocated(x) && (forall i :: 0 <= i && i < len(g.Genes) ==> g.Genes[i] != x) ==> x.IsEnabled == old(x.IsEnabled)
